@@ -9,8 +9,10 @@ open Dbus Dbus.Spec Dbus.Model Dbus.Model.Bus
 structure Leaves (K : Bus → Bus → Prop) : Prop where
   refl : ∀ b, K b b
   trans : ∀ a b c, K a b → K b c → K a c
-  /-- only the pending-reply list changes -/
-  pending : ∀ b p, K b { b with pending := p }
+  /-- the policy gate (it may consume or record a pending reply) -/
+  gate : ∀ b s a p m, K b { b with pending := (checkPolicy b s a p m).1 }
+  /-- a vanished connection's pending replies are forgotten -/
+  forget : ∀ b c, K b { b with pending := b.pending.filter fun p => !involves c p }
   acquire : ∀ t c n flags, K t.bus (acquire t c n flags).1.bus
   release : ∀ t c n, K t.bus (release t c n).1.bus
   removeOwner : ∀ t n c, K t.bus (removeOwner t n c).bus
@@ -26,19 +28,78 @@ structure Leaves (K : Bus → Bus → Prop) : Prop where
 
 variable {K : Bus → Bus → Prop}
 
-theorem lv_core (L : Leaves K) {b b' : Bus} (h : KCore b b') : K b b' := by
-  have e := core_eq_iff.mp h
-  have : b' = { b with pending := b'.pending } := by
-    cases b; cases b'; simp_all
-  rw [this]; exact L.pending b _
-
 theorem lv_foldl (L : Leaves K) {α : Type} (f : Tx → α → Tx) (hf : ∀ t a, K t.bus (f t a).bus) :
     ∀ (l : List α) (t : Tx), K t.bus (l.foldl f t).bus
   | [], t => L.refl _
   | a :: l, t => L.trans _ _ _ (hf t a) (lv_foldl L f hf l _)
 
+theorem lv_sendFromDriver (L : Leaves K) (t : Tx) (to : ConnId) (m : Msg) : K t.bus (sendFromDriver t to m).bus := by
+  unfold sendFromDriver
+  have g := L.gate t.bus none (some to) (some to) (stampDriver t.bus to m)
+  rcases h : checkPolicy t.bus none (some to) (some to) (stampDriver t.bus to m) with ⟨p, err⟩
+  rw [h] at g
+  simp only [h]
+  cases err <;> exact g
+
+theorem lv_sendOne (L : Leaves K) (t : Tx) (s a : Option ConnId) (to : ConnId) (m : Msg) : K t.bus (sendOne t s a to m).bus := by
+  unfold sendOne
+  have g := L.gate t.bus s a (some to) m
+  rcases h : checkPolicy t.bus s a (some to) m with ⟨p, err⟩
+  rw [h] at g
+  simp only [h]
+  cases err with
+  | some e => exact g
+  | none => dsimp only; split <;> exact g
+
+theorem lv_sendAddressed (L : Leaves K) (t : Tx) (s : Option ConnId) (a : ConnId) (m : Msg) :
+    K t.bus (sendAddressed t s a m).1.bus := by
+  unfold sendAddressed
+  have g := L.gate t.bus s (some a) (some a) m
+  rcases h : checkPolicy t.bus s (some a) (some a) m with ⟨p, err⟩
+  rw [h] at g
+  simp only [h]
+  cases err with
+  | some e => exact g
+  | none => dsimp only; split <;> exact g
+
+theorem lv_sendMatches (L : Leaves K) (t : Tx) (s a : Option ConnId) (m : Msg) : K t.bus (sendMatches t s a m).bus :=
+  lv_foldl L _ (fun t r => lv_sendOne L t s a r m) _ t
+
+theorem lv_dispatchMatches (L : Leaves K) (t : Tx) (s a : Option ConnId) (m : Msg) :
+    K t.bus (dispatchMatches t s a m).1.bus := by
+  unfold dispatchMatches
+  cases a with
+  | none => exact lv_sendMatches L t s none m
+  | some a =>
+    dsimp only
+    have h1 := lv_sendAddressed L t s a m
+    rcases h : sendAddressed t s a m with ⟨t1, e⟩
+    rw [h] at h1
+    cases e with
+    | some e => exact h1
+    | none => exact L.trans _ _ _ h1 (lv_sendMatches L t1 s (some a) m)
+
+theorem lv_sendError (L : Leaves K) (t : Tx) (to : ConnId) (m : Msg) (e : Err) : K t.bus (sendError t to m e).bus :=
+  lv_sendFromDriver L t to _
+
 theorem lv_reply (L : Leaves K) (t : Tx) (c : ConnId) (call : Msg) (tys : List Ty) (body : List Val) :
-    K t.bus (reply t c call tys body).bus := lv_core L (step_reply t c call tys body).bus
+    K t.bus (reply t c call tys body).bus := lv_sendFromDriver L t c _
+
+theorem lv_route (L : Leaves K) (t : Tx) (c : ConnId) (m : Msg) : K t.bus (route t c m).1.bus := by
+  unfold route
+  repeat' split
+  all_goals first | exact lv_dispatchMatches L _ _ _ _ | exact L.refl _
+
+theorem lv_dropPending (L : Leaves K) (t : Tx) (c : ConnId) : K t.bus (dropPending t c).bus := by
+  unfold dropPending
+  have hf : ∀ (t : Tx) (p : Pending), K t.bus (noReplyTo c t p).bus := by
+    intro t p
+    unfold noReplyTo
+    split
+    · exact lv_sendError L _ _ _ _
+    · exact L.refl _
+  exact L.trans _ _ _ (L.forget t.bus c)
+    (lv_foldl L (noReplyTo c) hf _ (t.setPending (t.bus.pending.filter fun p => !involves c p)))
 
 theorem lv_hello (L : Leaves K) (t : Tx) (c : ConnId) (m : Msg) : K t.bus (hello t c m).1.bus := by
   unfold hello
@@ -124,7 +185,9 @@ theorem lv_toDriver (L : Leaves K) (tbl : List IfaceRow) (t : Tx) (c : ConnId) (
   unfold Dbus.Model.Bus.toDriver
   rcases hcp : checkPolicy t.bus (some c) none none m with ⟨p, e⟩
   dsimp only
-  have h0 : K t.bus (t.setPending p).bus := L.pending _ _
+  have h0 : K t.bus (t.setPending p).bus := by
+    have := L.gate t.bus (some c) none none m
+    rw [hcp] at this; exact this
   cases e with
   | some e => exact h0
   | none =>
@@ -134,14 +197,14 @@ theorem lv_toDriver (L : Leaves K) (tbl : List IfaceRow) (t : Tx) (c : ConnId) (
     rw [hd] at h1
     cases e1 with
     | some e1 => exact L.trans _ _ _ h0 h1
-    | none => exact L.trans _ _ _ (L.trans _ _ _ h0 h1) (lv_core L (step_dispatchMatches t1 _ _ _).bus)
+    | none => exact L.trans _ _ _ (L.trans _ _ _ h0 h1) (lv_dispatchMatches L t1 _ _ _)
 
 theorem lv_finish (L : Leaves K) (b : Bus) (r : Tx × Option Err) (c : ConnId) (m : Msg) (h : K b r.1.bus) :
     K b (finish r c m).1 := by
   obtain ⟨t, e⟩ := r
   cases e with
   | none => exact h
-  | some e => exact L.trans _ _ _ h (lv_core L (finish_bus_some t e c m))
+  | some e => exact L.trans _ _ _ h (lv_sendError L t c m e)
 
 theorem lv_disconnect (L : Leaves K) (b : Bus) (c : ConnId) : K b (disconnect b c).1 := by
   unfold Dbus.Model.Bus.disconnect
@@ -156,7 +219,7 @@ theorem lv_disconnect (L : Leaves K) (b : Bus) (c : ConnId) : K b (disconnect b 
         ({ bus := clearRules (gcRules b x) c } : Tx)
     refine L.trans _ _ _ h3 ?_
     refine L.trans _ _ _ (L.removeConn _ c) ?_
-    exact lv_core L (step_dropPending ((releaseAll ({ bus := clearRules (gcRules b x) c } : Tx) c x.owned.reverse).mapBus (removeConn c)) c).bus
+    exact lv_dropPending L ((releaseAll ({ bus := clearRules (gcRules b x) c } : Tx) c x.owned.reverse).mapBus (removeConn c)) c
 
 theorem lv_dispatch (L : Leaves K) (tbl : List IfaceRow) (b : Bus) (c : ConnId) (m0 : Msg) : K b (dispatch tbl b c m0).1 := by
   unfold Dbus.Model.Bus.dispatch
@@ -171,7 +234,7 @@ theorem lv_dispatch (L : Leaves K) (tbl : List IfaceRow) (b : Bus) (c : ConnId) 
         · exact lv_finish L b _ c _ (lv_toDriver L tbl ({ bus := b } : Tx) c _)
         · split
           · exact lv_disconnect L b c
-          · exact lv_finish L b _ c _ (lv_core L (step_route ({ bus := b } : Tx) c _).bus)
+          · exact lv_finish L b _ c _ (lv_route L ({ bus := b } : Tx) c _)
 
 /-- **every step respects K** -/
 theorem lv_step (L : Leaves K) (tbl : List IfaceRow) (b : Bus) (ev : Ev) : K b (step tbl b ev).1 := by
